@@ -87,8 +87,9 @@ def random_jump_model(rng, closed=False, shape=None, limits=True):
             continue
         sink = i not in in_rate and i not in origins
         k = rng.random()
-        if sink and k < 0.25:
-            lims.append(rng.choice([(None, None), (None, rng.randint(8, 30))]))
+        if sink and k < 0.3:
+            # sinks may carry any limits, also ones that are exactly 0 or negative (they start inside them)
+            lims.append(rng.choice([(None, None), (None, rng.randint(8, 30)), (None, 0), (-rng.randint(3, 9), 0)]))
         elif k < 0.55:
             lims.append((0, None))
         elif k < 0.8:
@@ -97,7 +98,7 @@ def random_jump_model(rng, closed=False, shape=None, limits=True):
             lims.append((rng.randint(0, 2), rng.randint(10, 40)))
     x0 = []
     for lo, hi in lims:
-        a = lo if lo is not None else 0
+        a = lo if lo is not None else (0 if (hi is None or hi > 0) else hi - 6)
         b = min(hi if hi is not None else 25, 25)
         x0.append(rng.randint(a, max(a, b)) if rng.random() < 0.8 else a)     # sometimes start at the boundary
     theta = [Fraction(rng.randint(1, 16), 8) for _ in range(np_)] + [Fraction(rng.choice([8, 16, 32, 64]))]
